@@ -245,6 +245,8 @@ class Exec(HeapMixin, Engine):
                 return as_int(as_bool(v))
             return v
         if ck == "IntegralToFloating":
+            if self.umode and const_int(v) is None:
+                return self.uf("u_i2f", z3.IntSort(), z3.RealSort())(as_int(v))
             return simp(as_real(as_int(v)))
         if ck == "FloatingToIntegral":
             if self.umode:
@@ -361,7 +363,11 @@ class Exec(HeapMixin, Engine):
         raise Unsupported("binary " + op)
 
     def fop(self, op, a, b, n):
-        raise Unsupported("umode float op")
+        """U-mode: a floating-point operation is an uninterpreted function of its operands (bit-equality
+        reasoning); IEEE facts (oddness, commutativity) are supplied by the pack as axioms."""
+        R = z3.RealSort()
+        nm = {"+": "fadd", "-": "fsub", "*": "fmul", "/": "fdiv"}[op]
+        return self.uf("u_" + nm, R, R, R)(a, b)
 
     def ptr_op(self, st, op, a, b, n):
         if op in ("==", "!="):
@@ -812,7 +818,8 @@ class Exec(HeapMixin, Engine):
         t = self.tu0.node_type(decl)
         q = decl.get("type", {}).get("qualType", "")
         init = [c for c in decl.get("inner", ()) if c.get("kind") not in ("FullComment",) and "Attr" not in c.get("kind", "")]
-        is_const = "const" in q.split("*")[-1] or (t.kind == "array" and "const" in q)
+        is_const = "const" in q.split("*")[-1] or (t.kind == "array" and "const" in q) or \
+            name in getattr(self, "const_globals", ())
         if init and is_const:
             v = self._init_value(st, init[0], t)
         else:
